@@ -16,3 +16,6 @@ if ! cmp -s "$V/coq/gen/GenLocks.v.new.$$" "$V/coq/gen/GenLocks.v" 2>/dev/null; 
 # call-order skeletons (gotrans locktrace in calltrace mode, labels in gotrans/order.json): coq/gen/GenOrder.v
 "$V/work/bin/gotrans" locktrace "$REPO" "$V/gotrans/order.json" "$V/coq/gen/GenOrder.v.new.$$"
 if ! cmp -s "$V/coq/gen/GenOrder.v.new.$$" "$V/coq/gen/GenOrder.v" 2>/dev/null; then mv "$V/coq/gen/GenOrder.v.new.$$" "$V/coq/gen/GenOrder.v"; else rm -f "$V/coq/gen/GenOrder.v.new.$$"; fi
+# guarded-by skeletons (gotrans locktrace in guardtrace mode, variables in gotrans/guarded.json): coq/gen/GenGuard.v
+"$V/work/bin/gotrans" locktrace "$REPO" "$V/gotrans/guarded.json" "$V/coq/gen/GenGuard.v.new.$$"
+if ! cmp -s "$V/coq/gen/GenGuard.v.new.$$" "$V/coq/gen/GenGuard.v" 2>/dev/null; then mv "$V/coq/gen/GenGuard.v.new.$$" "$V/coq/gen/GenGuard.v"; else rm -f "$V/coq/gen/GenGuard.v.new.$$"; fi
